@@ -579,16 +579,185 @@ fn c11_fma(ctx: &mut Ctx) {
     }
 }
 
+// ---- isolated configurations (harness_iso/): one build of /repo per child process
+
+struct Iso {
+    child: std::process::Child,
+    inp: Option<std::process::ChildStdin>,
+    out: std::io::BufReader<std::process::ChildStdout>,
+}
+
+impl Iso {
+    fn spawn(which: &str) -> Result<Iso, String> {
+        use std::io::BufRead;
+        let dir = std::env::var("VERIF_DIR").unwrap_or_else(|_| "/verif".into());
+        let path = format!("{dir}/harness_iso/{which}/target/release/iso_{which}");
+        let mut child = std::process::Command::new(&path)
+            .stdin(std::process::Stdio::piped())
+            .stdout(std::process::Stdio::piped())
+            .stderr(std::process::Stdio::null())
+            .spawn()
+            .map_err(|e| format!("cannot start {path}: {e}"))?;
+        let inp = child.stdin.take();
+        let mut out = std::io::BufReader::new(child.stdout.take().unwrap());
+        // the child announces its entry table; it must be the table this process indexes
+        let mut names = Vec::new();
+        loop {
+            let mut l = String::new();
+            out.read_line(&mut l).map_err(|e| format!("{path}: {e}"))?;
+            let l = l.trim_end_matches('\n').to_string();
+            if l.is_empty() {
+                break;
+            }
+            names.push(l);
+        }
+        let mine: Vec<&str> = std_table().iter().map(|e| e.name).collect();
+        if names != mine {
+            return Err(format!("{path}: entry table differs from this process's table"));
+        }
+        Ok(Iso { child, inp, out })
+    }
+
+    fn send(&mut self, idx: usize, x: &Args) -> Result<(), String> {
+        use std::io::Write;
+        let mut rec = [0u8; 88];
+        rec[0..4].copy_from_slice(&(idx as u32).to_le_bytes());
+        for (k, v) in [x.a.0, x.a.1, x.b.0, x.b.1, x.c.0, x.c.1, x.f, x.g].iter().enumerate() {
+            rec[4 + 8 * k..12 + 8 * k].copy_from_slice(&v.to_bits().to_le_bytes());
+        }
+        rec[68..72].copy_from_slice(&x.n.to_le_bytes());
+        rec[72..88].copy_from_slice(&x.i.to_le_bytes());
+        let w = self.inp.as_mut().ok_or("closed")?;
+        w.write_all(&rec).map_err(|e| e.to_string())?;
+        w.flush().map_err(|e| e.to_string())?;
+        Ok(())
+    }
+
+    /// Ok(Some(out)) returned, Ok(None) panicked, Err = the channel broke
+    fn recv(&mut self) -> Result<Option<Out>, String> {
+        use std::io::Read;
+        let mut h = [0u8; 2];
+        self.out.read_exact(&mut h).map_err(|e| e.to_string())?;
+        if h[0] == 1 {
+            return Ok(None);
+        }
+        let mut o = Vec::new();
+        for _ in 0..h[1] {
+            let mut b = [0u8; 16];
+            self.out.read_exact(&mut b).map_err(|e| e.to_string())?;
+            o.push((f64::from_bits(u64::from_le_bytes(b[0..8].try_into().unwrap())), f64::from_bits(u64::from_le_bytes(b[8..16].try_into().unwrap()))));
+        }
+        Ok(Some(o))
+    }
+}
+
+impl Drop for Iso {
+    fn drop(&mut self) {
+        self.inp.take();
+        let _ = self.child.wait();
+    }
+}
+
+thread_local! {
+    static ISO: std::cell::RefCell<Option<(Iso, Iso)>> = const { std::cell::RefCell::new(None) };
+}
+
+fn iso_fault(msg: String) {
+    use std::sync::atomic::Ordering;
+    if !crate::fcommon::ORACLE_FAULT.swap(true, Ordering::SeqCst) {
+        eprintln!("ORACLE-FAULT: isolated configuration runner unavailable: {msg}");
+    }
+}
+
+const MATH_ENTRIES: [&str; 32] = [
+    "sqrt", "cbrt", "hypot", "powf", "exp", "exp2", "exp_m1", "ln", "log2", "log10", "log", "ln_1p", "sin", "cos", "tan", "sin_cos", "asin", "acos", "atan", "atan2", "sinh", "cosh", "tanh", "asinh", "acosh", "atanh", "powi", "recip",
+    "to_degrees", "to_radians", "fract", "round",
+];
+
+/// The two configurations the property names, each compiled by its own cargo invocation
+/// (no feature unification with this harness) and run as a child process; same operand words
+/// to both, the words coming back must be identical.
+fn c11_isolated(ctx: &mut Ctx) {
+    let ts = std_table();
+    static MATH_IDX: OnceLock<Vec<usize>> = OnceLock::new();
+    let math = MATH_IDX.get_or_init(|| std_table().iter().enumerate().filter(|(_, e)| MATH_ENTRIES.contains(&e.name)).map(|(i, _)| i).collect());
+    let i = if ctx.chance(3, 4) && !math.is_empty() { math[ctx.below(math.len() as u64) as usize] } else { ctx.below(ts.len() as u64) as usize };
+    let e = &ts[i];
+    let mut x = gen_args(ctx);
+    if ctx.chance(1, 3) {
+        // moderate magnitudes: where platform libm and the libm crate round differently
+        ctx.label("moderate-operands");
+        let d = match ctx.below(3) {
+            0 => dd_exp(ctx, -8, 12, false),
+            1 => {
+                let v = ctx.range(1, 100_000) as f64;
+                Dd::new(if ctx.flag() { -v } else { v }, 0.0)
+            }
+            _ => {
+                let u = ctx.bits(53) as f64 / 9007199254740992.0;
+                let v = (u - 0.25) * 400.0;
+                dd_at(ctx, if v == 0.0 { 1.0 } else { v })
+            }
+        };
+        x.a = (d.hi, d.lo);
+    }
+    ctx.key_u64(i as u64);
+    key_args(ctx, e, &x);
+    ctx.note("entry", || e.name.to_string());
+    ctx.note("args", || show_args(e, &x));
+    let r = ISO.with(|cell| {
+        let mut c = cell.borrow_mut();
+        if c.is_none() {
+            match (Iso::spawn("std"), Iso::spawn("nostd")) {
+                (Ok(a), Ok(b)) => *c = Some((a, b)),
+                (Err(m), _) | (_, Err(m)) => return Err(m),
+            }
+        }
+        let (a, b) = c.as_mut().unwrap();
+        // both children compute concurrently
+        let sent = a.send(i, &x).and_then(|_| b.send(i, &x));
+        let (ra, rb) = match sent {
+            Ok(()) => (a.recv(), b.recv()),
+            Err(m) => (Err(m.clone()), Err(m)),
+        };
+        match (ra, rb) {
+            (Ok(p), Ok(q)) => Ok((p, q)),
+            (Err(m), _) | (_, Err(m)) => {
+                *c = None;
+                Err(m)
+            }
+        }
+    });
+    let (rs, rn) = match r {
+        Ok(v) => v,
+        Err(m) => {
+            iso_fault(m);
+            ctx.out_of_domain();
+            return;
+        }
+    };
+    let show = |o: &Out| o.iter().map(|w| Dd::new(w.0, w.1).show()).collect::<Vec<_>>();
+    match (&rs, &rn) {
+        (Some(a), Some(b)) => {
+            check!(ctx, same_out(a, b), "{}({}): the default-features build (own process) returned {:?} but the --no-default-features --features math_funcs build (own process) returned {:?}", e.name, show_args(e, &x), show(a), show(b));
+            ctx.set_nontrivial(a.iter().any(|w| w.0.is_finite() && w.0 != 0.0));
+        }
+        (None, None) => ctx.label("both-panicked"),
+        _ => ctx.fail(format!("{}({}): one configuration panicked and the other did not (default: {}, no_std: {})", e.name, show_args(e, &x), if rs.is_none() { "panicked" } else { "returned" }, if rn.is_none() { "panicked" } else { "returned" })),
+    }
+}
+
 pub fn c11() -> Property {
     Property {
         id: "C11",
-        rule: "differential: the same table of 101 entry points instantiated for the default-features build and for a renamed copy of /repo's working tree built with default-features = false, features = [math_funcs] (libm::fma), linked into one process and called with identical operand words (the C01 sweep operands, 1/8 with wild operands); the fma backends reported by the two builds are recorded. Direct: each build's internal fma against RN(x*y+z) computed exactly, on adversarial triples (z = -RN(xy), ±k ulp, midpoint traps, gaps up to 1100 binades, subnormal results, inf/NaN). non-trivial = entry depends on fma and the result is finite non-zero (differential); x*y+z inexact (direct); distinct = distinct (entry, operand bits)",
+        rule: "differential: the same table of 101 entry points instantiated for the default-features build and for a renamed copy of /repo's working tree built with default-features = false, features = [math_funcs] (libm::fma), linked into one process and called with identical operand words (the C01 sweep operands, 1/8 with wild operands); the fma backends reported by the two builds are recorded. isolated_configurations: the same table served by two child processes (harness_iso/std, harness_iso/nostd), each compiled by its own cargo invocation from the copy of /repo's working tree with exactly the default features resp. --no-default-features --features math_funcs and no other crate in the graph (so cargo's feature unification cannot leak num-traits/std or similar from the harness into either configuration); 3/4 of the cases on the mathematical functions, 1/3 with moderate operands (integers up to 1e5, [-100,300], 2^-8..2^12). Direct: each build's internal fma against RN(x*y+z) computed exactly, on adversarial triples (z = -RN(xy), ±k ulp, midpoint traps, gaps up to 1100 binades, subnormal results, inf/NaN). non-trivial = entry depends on fma and the result is finite non-zero (differential); x*y+z inexact (direct); distinct = distinct (entry, operand bits)",
         assumptions: vec![
             "the MinGW target cannot be built here; it selects the same libm::fma definition as the no_std build, which is exercised".into(),
             format!("fma backends linked into this process: default build = {}, no_std build = {}", fma_hooks::STD_BACKEND, fma_hooks::NOSTD_BACKEND),
         ],
         subchecks: vec![
             SubCheck { name: "differential", kind: Kind::Generated { words: 130, max_items: 0 }, eval: c11_differential, quick: 3_000_000, thorough: 100_000_000 },
+            SubCheck { name: "isolated_configurations", kind: Kind::Generated { words: 130, max_items: 0 }, eval: c11_isolated, quick: 3_000_000, thorough: 100_000_000 },
             SubCheck { name: "fma_direct", kind: Kind::Generated { words: 24, max_items: 0 }, eval: c11_fma, quick: 3_000_000, thorough: 200_000_000 },
         ],
     }
